@@ -54,8 +54,8 @@ PROPS = {
     "C09": P(["lifecycle", "store"],
              "Proof (Verus) on the lifecycle side: started from any durable image, a Succeeded record is replayed; recovery writes are required to succeed absent faults by the store interface contract.",
              LIFE_NOTE, assumptions=A_WORLD, not_covered=["'eventually retried' is the sender's behaviour"]),
-    "C11": P(["lifecycle"],
-             "Proof of the lower bound (Verus): a temporary_trampoline_failure produced with no attempt and no policy rejection implies now >= wait_started + mpp_timeout; every sleep is at most one mpp_timeout; timer/zero-time branches return without add_payment_attempt/pay. The upper bound is not applicable (timer/scheduler latency).",
+    "C11": P(["lifecycle", "paystate"],
+             "Proof of the lower bound (Verus): a temporary_trampoline_failure produced with no attempt and no policy rejection implies now >= wait_started + mpp_timeout; every sleep is at most one mpp_timeout; timer/zero-time branches return without add_payment_attempt/pay; readiness is signalled only when the amounts actually received cover amount + fee (unit paystate), so an incomplete set never starts a payment. The upper bound is not applicable (timer/scheduler latency).",
              LIFE_NOTE + " NOT APPLICABLE clause: the upper bound on the failure time.", assumptions=A_WORLD),
     "C12": dict(P(["fee", "handle", "handle_slices"],
              "Proof (Verus, unbounded): fee_sufficient as extracted from src/messages.rs satisfies the exact integer predicate of the statement for all u64 x u64 x u32 x u32 outside the region of known finding F-C12-a, never answers true when the exact predicate is false anywhere, and has no overflow/panic. One proof covers checked and wrapping builds because no overflow occurs.",
@@ -108,8 +108,8 @@ PROPS["C19"] = P(["config", "provider"],
     not_covered=["statements of main() between the two slices"])
 
 PROPS["C20"] = P(["height"],
-    "Proof (Verus): update_height leaves the shared cell at max(value found under the lock, new height) = the maximum of all heights told so far, never lower than before; new_block, poll_height and current_height reach the cell only through update_height / a read under the same mutex. Holds under every interleaving because the update is one critical section and every other updater guarantees the same postcondition. The catch-up bound is not applicable.",
-    "Trusted: " + TB_COMMON + " env/height_env.rs (tokio Mutex<u32>: exclusive access; other holders only run update_height). NOT APPLICABLE clause: 'catches up within one poll interval' (timer liveness).",
+    "Proof (Verus): update_height leaves the shared cell at max(value found under the lock, new height) = the maximum of all heights told so far, never lower than before; new_block, poll_height and current_height reach the cell only through update_height / a read under the same mutex. Holds under every interleaving because the update is one critical section and every other updater guarantees the same postcondition. Catch-up clause in its safety form: the polling task poll_forever (verbatim, E3 on its select!, loop invariant) never asks the timer for a wait longer than the declared POLL_INTERVAL and starts a new wait only when every earlier wake-up was followed by a poll_height call (failed polls included); a successful poll leaves the height at least at what the node reported. That the timer fires and the task is scheduled in time is not applicable.",
+    "Trusted: " + TB_COMMON + " env/height_env.rs (tokio Mutex<u32>: exclusive access; other holders only run update_height). env timer/shutdown channel of poll_forever with ghost wake-up counters (PollGhost). POLL_INTERVAL enters by E13 (exec const + reflection contract). NOT APPLICABLE part of the catch-up clause: that tokio's timer fires on time and the task gets scheduled (liveness); start()'s spawn of poll_forever is not under contract.",
     assumptions=["only the functions of block_watcher.rs write the height cell (field is private to the module)"])
 
 PROPS["C18"] = P(["tlv_dec", "tlv_enc", "tlv_get"],
